@@ -1,12 +1,36 @@
 /-
 C05 — BMS writing produces a file that denotes the in-memory chart.
 
-The property theorems proved so far live in `Reamber/Lemmas/BMSWrite.lean` (same namespace and names as before:
+Main theorem: `bms_write_read` (end of this file) —
+
+  ∀ tempo list cs (well-formed 4/4 points, strictly ascending, first at measure 0 beat 0, grid-compatible on the
+    grid of 96), layout (LayoutOK, time-signature channel apart: `layouts_ok`, `layouts_timeSig` for the five
+    generated ones), chart c whose tempo rows are ANY arrangement of `tmOf 0 cs` (first tempo point at time 0: ¬D35),
+    tempos with ≤ 3 decimals (¬D06), rows in measures 000–999 (¬D36) with no two objects on one (channel, slot),
+    every lane's hits and holds following one another in time (¬D37), header domain `HeaderOK`:
+    ∃ lines d, write defaultGrid layout dflt c = .ok lines ∧ denote layout lines = some d ∧
+      d.tempo = header tempo :: cs ∧ d.shits / d.sholds = per lane, one hit per hit and one hold per hold, at
+      positions whose by-the-book times are the in-memory times exactly on the snap grid and within 1/192 beat
+      (at the tempo in force) otherwise.
+
+`bms_write_read_nonvacuous` instantiates every hypothesis on a concrete chart.  Pieces (this file): the file's lines
+as a permutation of the cells' objects (`written_objects_perm`, `written_file_objects`, header lines contribute no data
+lines: `foldlE_docStep_header`), pairwise different positions from monotone snapping (`posFn_mono`,
+`positions_strict`; K1: `Lemmas/SnapMono.lean`), the writer's cells (`cells_ok`, C15's `writeCells_eq`,
+`cells_objects`), lanes (`lane_rows_perm`, `written_lane_denotes`), tempo objects (`written_tempo_denotes`), header
+(`Lemmas/BMSHeader.lean`: `written_header_read`), `rows_normalised`.
+
+The earlier property theorems live in `Reamber/Lemmas/BMSWrite.lean` (same namespace and names as before:
 `findLcm_dvd`, `newDens_dvd`, `slot_exact`, `slot_roundtrip`, `no_merge_no_drop`, `line_valid`, `lineKeys_cover`,
 `written_line_denotes`, `written_objects`, `pairLane_atoms`, `write_positions`, `written_tempo_list`,
 `exbpm_table_readback`, `parseFloat_showFixed`, `bms_write_read_partial`, … — see its header for the full list and for
 what each says); they were moved there so that C15's `Lemmas/PermInvBMS.lean` (`posFn`, `snaps_pointwise`,
-`cells_objects`), which builds on them, can be used here.  This file holds the assembly on top of both.
+`cells_objects`), which builds on them, can be used here.
+
+Still outside `bms_write_read` (stated, not hidden): samples — the hit's sample is what the file's `#WAV` table gives
+the written id (`so (sampleId …)`), not shown equal to the in-memory sample (unknown samples are written under the
+default id); `d.header`'s title/artist/version fields; metronome ≠ 4 (channel-02 lines); the byte lexer is shared by
+`write`'s reader side and `denote`.
 -/
 import Reamber.Lemmas.BMSWrite
 import Reamber.Lemmas.PermInvBMS
@@ -734,7 +758,7 @@ theorem posFn_time (cs : List BcSnap) (hwf : wfChanges cs = true) (hs : sortedSn
   exact (hFt t (by simp)).2
 
 /-- **One lane of the written file, by the book.**  `rows` = the rows the writer builds for the chart
-(`writeCells_eq`), renderable and collision-free (`RowsOK`: ¬D36, ¬D35), note ids different from `00`; `items` = the
+(`writeCells_eq`), renderable and collision-free (`RowsOK`: ¬D36; no two objects on one slot — the property's own precondition), note ids different from `00`; `items` = the
 lane's hits and holds in time order, one after the other (`hasc`: nothing of the lane starts inside a hold — ¬D37),
 sample ids different from the `#LNOBJ` id.  Whenever the file's lines give the lane's channel an arrangement `os` of
 the rows of that channel (`written_file_objects`), the by-the-book reading of the lane — sort by position, check
@@ -983,12 +1007,13 @@ theorem bpms_pos (cs : List BcSnap) (hwf : wfChanges cs = true) (rows : List BcO
 
 `cs` — a tempo list in C05's domain: well-formed 4/4 tempo points, pairwise different positions in ascending order,
 the first at measure 0 beat 0, grid-compatible on the shipped grid of 96 (tempo points on measure lines always are);
-`c` — a chart whose tempo rows are, in ANY order, what is stored for `cs` (`hp`), with columns of the layout and times
-at or after the first tempo point (`hok`); `lay` a well-formed layout (`LayoutOK`; the time-signature channel is
+`c` — a chart whose tempo rows are, in ANY order, what is stored for `cs` with the first tempo point at time 0
+(`hp : c.bpms.Perm (tmOf 0 cs)` — ¬D35), with columns of the layout and times at or after the first tempo point (`hok`); `lay` a well-formed layout (`LayoutOK`; the time-signature channel is
 none of its lanes and not the tempo channel: `hts`).  Under the named hypotheses
 * `hdec` — every tempo is a three-decimal number (¬D06),
 * `hR` — the rows the writer builds are renderable and collision-free: measures 000–999 (¬D36), no two objects on one
-  (channel, slot) (¬D35), two-character base-36 channels and ids, normalised positions,
+  (channel, slot) (the property's own precondition), two-character base-36 channels and ids (normalised positions and
+  measure ≥ 0 are not assumptions: `rows_normalised`),
 * `hitems`/`hasc` — on every lane the hits and holds, taken in time order, follow one another: nothing of the lane
   starts inside a hold (¬D37), and sample ids differ from the `#LNOBJ` id and from `00` (`hv`),
 * `hH` — header domain (`HeaderOK`),
@@ -1261,7 +1286,7 @@ theorem posFn_normal (cs : List BcSnap) (hwf : wfChanges cs = true) (hs : sorted
 
 /-- **`RowsOK.norm` and the lower bound in `RowsOK.meas` hold for every chart in the domain**: they are not
 assumptions of `bms_write_read`; what `RowsOK` really asks of the chart is `measure < 1000` (¬D36), the
-two-character channels and ids, and `nocoll` (¬D35). -/
+two-character channels and ids, and `nocoll` (no two objects on one slot: the property's precondition). -/
 theorem rows_normalised (cs : List BcSnap) (hwf : wfChanges cs = true) (hs : sortedSnaps cs = true)
     (h0 : firstAtZero cs = true) (hgc : gridCompatible (grid defaultMaxDiv) cs = true) (hm : metronomeOk cs = true)
     (lay : Layout) (dflt : Bytes) (c : WChart) (hok : BmsOk cs lay c) :
